@@ -332,7 +332,46 @@ func CowCTA(c *core.Ctx) {
 			continue // the primitives themselves (double-checked initialisation / the critical section)
 		}
 		if len(cow) == 0 && storerNames[fb.Decl.Name.Name] {
-			continue // publishes through another method of the receiver: judged there
+			// publishes through another method of the receiver (the critical section is judged there); what remains to
+			// judge here is the result: it must not be read back from the map after the publishing call returned
+			var pubEnd token.Pos
+			ast.Inspect(fb.Body, func(x ast.Node) bool {
+				if call, ok := x.(*ast.CallExpr); ok {
+					if callee := onSelf(call, recv); callee != "" && storerNames[callee] && !accessor[callee] {
+						if pubEnd == token.NoPos || call.End() < pubEnd {
+							pubEnd = call.End()
+						}
+					}
+				}
+				return true
+			})
+			if pubEnd != token.NoPos {
+				nWrite++
+				var bad *ast.CallExpr
+				ast.Inspect(fb.Body, func(x ast.Node) bool {
+					if _, ok := x.(*ast.FuncLit); ok {
+						return false
+					}
+					ret, ok := x.(*ast.ReturnStmt)
+					if !ok || ret.Pos() < pubEnd {
+						return true
+					}
+					for _, res := range ret.Results {
+						for _, a := range reads {
+							if a.Pos() >= pubEnd && a.Pos() >= res.Pos() && a.End() <= res.End() && bad == nil {
+								bad = a
+							}
+						}
+					}
+					return true
+				})
+				if bad != nil {
+					c.Add("R-CTA", name+"/result", bad.Pos(), core.Violated, "the result is read back from the map ("+exprString(bad)+") after the publishing call returned: a concurrent Removed/Updated makes it differ from what was stored (or panic on a missing key)")
+				} else {
+					c.Add("R-CTA", name+"/result", fb.Decl.Pos(), core.Discharged, "result does not depend on a read after the write")
+				}
+			}
+			continue
 		}
 		if len(cow) == 0 {
 			if len(reads) == 0 {
